@@ -634,6 +634,224 @@ pub fn run_quit(c: &QuitCase) -> Outcome {
 	o
 }
 
+// ---------------------------------------------------------------------------------------------
+// C06: a graceful quit that arrives while the job is still busy with something that must finish
+// first: an earlier graceful stop / restart whose (longer) grace period is running, or a long hook.
+
+#[derive(Clone, Debug, Serialize, Deserialize)]
+pub struct QuitBusyCase {
+	pub helpers: Vec<Helper>,
+	/// 0 an earlier stop_with_signal, 1 an earlier restart_with_signal, 2 a run_async hook that sleeps
+	pub pre: u8,
+	pub pre_sig: u8,
+	/// grace of the earlier stop / length of the hook
+	pub pre_ms: u16,
+	/// the quit follows this long after the earlier control
+	pub gap_ms: u16,
+	pub quit_sig: u8,
+	pub quit_grace_ms: u16,
+}
+
+pub fn quit_busy_strategy() -> BoxedStrategy<QuitBusyCase> {
+	let h = (0u8..3, prop_oneof![3 => Just(1u8), 1 => Just(2u8)]).prop_map(|(wrap, react)| Helper { wrap, react, delay_ms: 700, self_exit_ms: None });
+	(proptest::collection::vec(h, 1..3), 0u8..3, 0u8..6, prop_oneof![Just(2200u16), Just(2700)], prop_oneof![Just(40u16), Just(150), Just(300)], 0u8..6, prop_oneof![Just(0u16), Just(100), Just(500)])
+		.prop_map(|(helpers, pre, pre_sig, pre_ms, gap_ms, quit_sig, quit_grace_ms)| QuitBusyCase {
+			helpers,
+			pre,
+			pre_sig,
+			pre_ms,
+			gap_ms,
+			// two different signals so that the log tells which control a signal came from
+			quit_sig: if quit_sig % 6 == pre_sig % 6 { quit_sig + 1 } else { quit_sig },
+			quit_grace_ms,
+		})
+		.boxed()
+}
+
+pub fn run_quit_busy(c: &QuitBusyCase) -> Outcome {
+	use watchexec::{Config, Watchexec};
+	use watchexec_events::{Event, Priority, Tag};
+	let mut o = Outcome::pass();
+	o.nontrivial = true;
+	let pre = c.pre % 3;
+	o.label(["quit-during-stop-grace", "quit-during-restart-grace", "quit-during-long-hook"][pre as usize]);
+	let n = c.helpers.len();
+	let logs_all: Vec<Logs> = (0..n).map(|_| Logs::new("vh-c06b-")).collect();
+	let (pre_sig, pre_signum) = SIGS[usize::from(c.pre_sig) % SIGS.len()];
+	let (quit_sig, quit_signum) = SIGS[usize::from(c.quit_sig) % SIGS.len()];
+	let pre_ns = u64::from(c.pre_ms) * 1_000_000;
+	let quit_grace_ns = u64::from(c.quit_grace_ms) * 1_000_000;
+	let rt = tokio::runtime::Builder::new_multi_thread().worker_threads(2).enable_all().build().unwrap();
+	let t_pre = Arc::new(AtomicU64::new(0));
+	let t_quit = Arc::new(AtomicU64::new(0));
+	let cmds: Vec<Arc<Command>> = c.helpers.iter().zip(logs_all.iter()).map(|(h, l)| command(h, l)).collect();
+	let jobs: Arc<Mutex<Vec<Job>>> = Arc::new(Mutex::new(Vec::new()));
+	let res: Result<(Vec<(i32, u64, Option<u64>)>, bool), String> = rt.block_on(async {
+		let config = Config::default();
+		config.throttle(Duration::from_millis(0));
+		let (t_pre2, t_quit2, cmds2, jobs2) = (t_pre.clone(), t_quit.clone(), cmds.clone(), jobs.clone());
+		let pre_d = Duration::from_millis(u64::from(c.pre_ms));
+		let g = Duration::from_millis(u64::from(c.quit_grace_ms));
+		config.on_action(move |mut action| {
+			let phase = action.events.iter().find_map(crate::wxrun::id_of).unwrap_or(0);
+			match phase {
+				1 => {
+					for cmd in &cmds2 {
+						let (_, job) = action.create_job(cmd.clone());
+						job.start();
+						jobs2.lock().unwrap().push(job);
+					}
+				}
+				2 => {
+					t_pre2.store(mono_ns(), Ordering::SeqCst);
+					for job in jobs2.lock().unwrap().iter() {
+						match pre {
+							0 => drop(job.stop_with_signal(pre_sig, pre_d)),
+							1 => drop(job.restart_with_signal(pre_sig, pre_d)),
+							_ => drop(job.run_async(move |_| Box::new(async move { tokio::time::sleep(pre_d).await }))),
+						}
+					}
+				}
+				3 => {
+					t_quit2.store(mono_ns(), Ordering::SeqCst);
+					action.quit_gracefully(quit_sig, g);
+				}
+				_ => {}
+			}
+			action
+		});
+		let wx = Watchexec::with_config(config).map_err(|e| e.to_string())?;
+		let mut main = wx.main();
+		let ev = |k: u32| Event { tags: vec![Tag::Process(k)], metadata: Default::default() };
+		wx.send_event(ev(1), Priority::Normal).await.map_err(|e| e.to_string())?;
+		let until = mono_ns() + 9_000_000_000;
+		while mono_ns() < until && !logs_all.iter().all(|l| !starts(l).is_empty()) {
+			tokio::time::sleep(Duration::from_millis(2)).await;
+		}
+		if !logs_all.iter().all(|l| !starts(l).is_empty()) {
+			main.abort();
+			return Err("env".into());
+		}
+		let pollers: Vec<(i32, Poller)> = logs_all.iter().map(|l| starts(l)[0].0).map(|pid| (pid, Poller::new(pid))).collect();
+		tokio::time::sleep(Duration::from_millis(30)).await;
+		wx.send_event(ev(2), Priority::Normal).await.map_err(|e| e.to_string())?;
+		tokio::time::sleep(Duration::from_millis(u64::from(c.gap_ms))).await;
+		wx.send_event(ev(3), Priority::Normal).await.map_err(|e| e.to_string())?;
+		let finished = tokio::time::timeout(Duration::from_millis(u64::from(c.pre_ms) + u64::from(c.quit_grace_ms) + 9_000), &mut main).await.is_ok();
+		if !finished {
+			main.abort();
+		}
+		tokio::time::sleep(Duration::from_millis(150)).await;
+		Ok((pollers.into_iter().map(|(pid, p)| { let (la, fd) = p.finish(); (pid, la, fd) }).collect(), finished))
+	});
+	drop(rt);
+	jobs.lock().unwrap().clear();
+	let all_lines: Vec<Vec<Vec<String>>> = logs_all.iter().map(Logs::lines).collect();
+	for l in &logs_all {
+		kill_all(&l.pids());
+	}
+	let (obs, finished) = match res {
+		Ok(x) => x,
+		Err(_) => {
+			o.fail("env:helper-not-started", format!("a helper did not report in within 9 s\ncase {c:?}"));
+			return o;
+		}
+	};
+	let (tp, tq) = (t_pre.load(Ordering::SeqCst), t_quit.load(Ordering::SeqCst));
+	let dump = || {
+		let mut s = format!("\ncase {c:?}\nearlier control at t0, quit requested at {:+.1} ms; per job (pid, last seen alive, first seen dead) in ms after t0: {:?}; main finished: {finished}", rel(tq, tp), obs.iter().map(|(p, la, fd)| (*p, rel(*la, tp), fd.map(|x| rel(x, tp)))).collect::<Vec<_>>());
+		for (i, lines) in all_lines.iter().enumerate() {
+			s.push_str(&format!("\njob {i} helper log:\n{}", lines.iter().map(|l| rel_line(l, tp)).collect::<Vec<_>>().join("\n")));
+		}
+		s
+	};
+	if tp == 0 || tq == 0 {
+		o.fail("harness:quit-not-requested", format!("the handler never reached the earlier control or the quit{}", dump()));
+		return o;
+	}
+	if !finished {
+		o.fail("quit-busy:main-did-not-finish", format!("main still running 9 s after both grace periods{}", dump()));
+		return o;
+	}
+	for (i, h) in c.helpers.iter().enumerate() {
+		let (pid, last_alive, first_dead) = obs[i];
+		let lines = &all_lines[i];
+		let sigs: Vec<(u64, i32)> = lines.iter().filter(|l| l.len() >= 4 && l[0] == "signal" && l[1] == pid.to_string()).filter_map(|l| Some((l[2].parse().ok()?, l[3].parse().ok()?))).collect();
+		let end_line = lines.iter().any(|l| l.len() >= 3 && l[0] == "end" && l[1] == pid.to_string());
+		let ignores = h.react % 3 == 1;
+		if pre < 2 {
+			// the first process is in the grace period of the earlier stop: that period must run its full
+			// length whatever the quit asks for (the quit's own stop waits behind it)
+			match sigs.first() {
+				Some((_, s)) if *s == pre_signum => {}
+				other => {
+					o.fail("quit-busy:earlier-stop-signal-missing", format!("job {i}: first signal {other:?}, the earlier graceful control sent {pre_signum}{}", dump()));
+					return o;
+				}
+			}
+			if ignores {
+				if let Some(fd) = first_dead {
+					if fd < tp + pre_ns {
+						o.fail("quit-busy:killed-before-grace", format!("job {i}: seen dead {:.1} ms after a graceful stop with a grace period of {} ms (a quit with {} ms followed){}", rel(fd, tp), c.pre_ms, c.quit_grace_ms, dump()));
+						return o;
+					}
+				}
+				if first_dead.is_none() || last_alive > tq.max(tp + pre_ns) + quit_grace_ns + SLACK_NS {
+					o.fail("quit-busy:not-killed-at-expiry", format!("job {i}: still alive {:.1} ms after the earlier stop{}", rel(last_alive, tp), dump()));
+					return o;
+				}
+			} else if !end_line {
+				// exits by itself 700 ms after the first signal, well inside the earlier grace period
+				o.fail("quit-busy:killed-before-grace", format!("job {i}: the helper ends by itself within the grace period but never logged its own end{}", dump()));
+				return o;
+			}
+		} else {
+			// the job is busy in a hook: the quit's graceful stop is handled when the hook is done, and is a
+			// graceful stop all the same - the signal first, the kill not before the grace period is over
+			// (both kinds of helper outlive the quit's grace period: the slow one needs 700 ms after the signal)
+			let _ = (ignores, end_line);
+			let Some((at, s)) = sigs.first().copied() else {
+				if c.quit_grace_ms == 0 {
+					// signal and kill come together: the helper may die before it has logged the signal
+					if first_dead.is_none() {
+						o.fail("quit-busy:not-killed-at-expiry", format!("job {i}: still alive after main ended{}", dump()));
+						return o;
+					}
+					continue;
+				}
+				o.fail("quit-busy:signal-not-delivered", format!("job {i}: the helper never logged a signal{}", dump()));
+				return o;
+			};
+			if s != quit_signum {
+				o.fail("quit-busy:wrong-signal", format!("job {i}: first signal {s}, the quit asked for {quit_signum}{}", dump()));
+				return o;
+			}
+			// the signal cannot have been sent before the hook was over (the helper logs it on receipt, which under
+			// load can be later than the sending: the lower bound is anchored at the earliest possible sending)
+			if let Some(fd) = first_dead {
+				if fd < tp + pre_ns + quit_grace_ns {
+					o.fail("quit-busy:killed-before-grace", format!("job {i}: seen dead {:.1} ms after the hook was queued; the hook takes {} ms and the quit's grace period is {} ms{}", rel(fd, tp), c.pre_ms, c.quit_grace_ms, dump()));
+					return o;
+				}
+			}
+			if first_dead.is_none() || last_alive > at + quit_grace_ns + SLACK_NS {
+				o.fail("quit-busy:not-killed-at-expiry", format!("job {i}: still alive {:.1} ms after the quit's signal{}", rel(last_alive, at), dump()));
+				return o;
+			}
+		}
+	}
+	// nothing survives
+	for l in &logs_all {
+		for (kind, pid) in l.pids() {
+			if kind == "start" && alive(pid) {
+				o.fail("quit-busy:survivor", format!("process {pid} still alive after main ended{}", dump()));
+				return o;
+			}
+		}
+	}
+	o
+}
+
 fn rel(t: u64, t0: u64) -> f64 {
 	(t as f64 - t0 as f64) / 1e6
 }
